@@ -191,10 +191,10 @@ Fixpoint sval (vals : list (option str)) (v : kwval) : str :=
   match v with
   | KStr x => x
   | KRes j => match nth j vals None with Some x => x | None => s "none" end
-  | KList l => s "[" ++ Sym.commas (map (sval vals) l) ++ s "]"
+  | KList _ l => s "[" ++ Sym.commas (map (sval vals) l) ++ s "]"
   end.
 Fixpoint kv_refs (v : kwval) : list nat :=
-  match v with KStr _ => [] | KRes j => [j] | KList l => flat_map kv_refs l end.
+  match v with KStr _ => [] | KRes j => [j] | KList _ l => flat_map kv_refs l end.
 
 (* concrete requests (with their transitive expected calls), built from the statuses of the observation *)
 Fixpoint concretize (p : pipeline) (rs : list request_t) (sts : list sx) (vals : list (option str))
